@@ -724,6 +724,21 @@ fn allof_branches_normalised(bs: &[Value]) -> Option<Vec<Value>> {
         let merged = json!({"type": ty, "enum": lits});
         out[idx[0]]["properties"][&k] = merged.clone();
         out[idx[1]]["properties"].as_object_mut().unwrap().remove(&k);
+        // `required` follows the property
+        let was_required = out[idx[1]].get("required").and_then(|r| r.as_array()).map(|r| r.contains(&json!(k))).unwrap_or(false);
+        if was_required {
+            let rest: Vec<Value> = out[idx[1]]["required"].as_array().unwrap().iter().filter(|x| **x != json!(k)).cloned().collect();
+            if rest.is_empty() {
+                out[idx[1]].as_object_mut().unwrap().remove("required");
+            } else {
+                out[idx[1]]["required"] = json!(rest);
+            }
+            let mut r0: Vec<Value> = out[idx[0]].get("required").and_then(|r| r.as_array()).cloned().unwrap_or_default();
+            if !r0.contains(&json!(k)) {
+                r0.push(json!(k));
+            }
+            out[idx[0]]["required"] = json!(r0);
+        }
     }
     Some(out)
 }
@@ -1281,7 +1296,12 @@ pub fn doc_in_enforced(doc: &Value) -> bool {
                         return false;
                     }
                 }
-                o.iter().all(|(k, c)| k == "enum" || k == "required" || only_enforced(c))
+                o.iter().all(|(k, c)| match k.as_str() {
+                    "enum" | "required" => true,
+                    // a map of property schemas, not a schema itself
+                    "properties" => c.as_object().map(|ps| ps.values().all(only_enforced)).unwrap_or(false),
+                    _ => only_enforced(c),
+                })
             }
             Value::Array(a) => a.iter().all(only_enforced),
             Value::Bool(_) => true,
